@@ -5,7 +5,7 @@
    strict_total ltb := irreflexive, transitive, incomparable elements are equal (the dtype's < ; NaN-free) *)
 From Coq Require Import ZArith List Bool.
 From EV Require Import Res Arr Spans SpansSpec SpansBase SpansRef SpansField SpansKernels SpansIndexed SpansOrder
-  SpansReduce SpansMerge SpansIndexedReduce SpansMain SpansSorted SpansFilter SpansRle SpansRleProofs SpansRleReduce.
+  SpansReduce SpansMerge SpansIndexedReduce SpansMain SpansSorted SpansFilter SpansRle SpansRleProofs SpansRleReduce SpansRepr SpansReprProofs.
 Import ListNotations.
 Open Scope Z_scope.
 
@@ -306,3 +306,74 @@ Example rle_min_example :
   rle_min_ref Z.ltb 0 [0; 4194304; 8388609] [(5, 4194303); (1, 2); (5, 4194303); (0, 1)] = [1; 0] /\
   rle_index_of_min_ref Z.ltb [0; 4194304; 8388609] [(5, 4194303); (1, 2); (5, 4194303); (0, 1)] = [4194303; 8388608].
 Proof. vm_compute. split; reflexivity. Qed.
+
+(* ---- 14. keys as stored versus keys as they compare (value equality, not representation equality) --------- *)
+(* The span kernels compare by VALUE.  float_key decodes a non-NaN binary<w> bit pattern into an integer key; full:
+   two patterns get the same key iff they are the same pattern or both are zeros (+0.0 / -0.0), and the keys are ordered
+   as sign-magnitude numbers (IEEE 754: that is the order of the floats — trusted, see TRUSTED in harness/props/C08.py) *)
+Theorem float_key_signed_zero : forall w, 0 < w -> float_key w (2 ^ (w - 1)) = float_key w 0.
+Proof. exact float_key_signed_zero_pf. Qed.
+Print Assumptions float_key_signed_zero.
+Theorem float_key_eq_iff : forall w a b, 0 < w -> 0 <= a < 2 ^ w -> 0 <= b < 2 ^ w ->
+  (float_key w a = float_key w b <-> a = b \/ (zero_bits w a /\ zero_bits w b)).
+Proof. exact float_key_eq_iff_pf. Qed.
+Print Assumptions float_key_eq_iff.
+Theorem float_key_order : forall w a b, 0 < w -> 0 <= a < 2 ^ w -> 0 <= b < 2 ^ w ->
+  (float_key w a < float_key w b <->
+   (a < 2 ^ (w - 1) /\ b < 2 ^ (w - 1) /\ a < b) \/
+   (2 ^ (w - 1) <= a /\ 2 ^ (w - 1) <= b /\ b < a) \/
+   (2 ^ (w - 1) <= a /\ b < 2 ^ (w - 1) /\ (2 ^ (w - 1) < a \/ 0 < b))).
+Proof. exact float_key_order_pf. Qed.
+Print Assumptions float_key_order.
+(* spans of a float column given by its bit patterns: THE spans of the column of values, through every model
+   (instances of sections 1-3 at the keys); rows 0.0, -0.0, 0.0 lie in ONE span … *)
+Theorem spans_float_column_correct : forall w (bits:list Z),
+  is_spans 0 (map (float_key w) bits) (get_spans_for_field Z_neqb (map (float_key w) bits)).
+Proof. intros w bits. apply spans_field_correct_pf. exact Z_neqb_spec. Qed.
+Print Assumptions spans_float_column_correct.
+Theorem spans_multi_float_correct : forall w (cols:list (list Z)) (n:Z),
+  cols <> [] -> Forall (fun f => len f = n) cols ->
+  exists sp, get_spans_for_multi_fields Z_neqb (map (map (float_key w)) cols) = Ok sp /\
+             is_spans [] (rows_of 0 (map (map (float_key w)) cols) n) sp.
+Proof.
+  intros w cols n Hne Hall. apply spans_multi_correct_pf; [exact Z_neqb_spec|destruct cols; [congruence|discriminate]|].
+  apply Forall_map. eapply Forall_impl; [|exact Hall]. cbn beta. intros f Hf. unfold len in *. rewrite map_length. exact Hf.
+Qed.
+Print Assumptions spans_multi_float_correct.
+Example spans_signed_zero :   (* -1.5, 0.0, -0.0, 0.0, 2.5, 2.5 as binary64 *)
+  get_spans_for_field Z_neqb (map (float_key 64)
+    [13832806255468478464; 0; 9223372036854775808; 0; 4612811918334230528; 4612811918334230528]) = [0; 1; 4; 6].
+Proof. vm_compute. reflexivity. Qed.
+(* … whereas comparing the stored bit patterns is NOT the span list of the column (the class of defect the
+   correspondence run must see: it feeds the real code the patterns and the model the keys) *)
+Theorem bitwise_spans_refuted : exists bits,
+  ~ is_spans 0 (map (float_key 64) bits) (get_spans_for_field Z_neqb bits).
+Proof.
+  exists [0; 9223372036854775808]. intros H.
+  assert (E : get_spans_for_field Z_neqb [0; 9223372036854775808] =
+              get_spans_for_field Z_neqb (map (float_key 64) [0; 9223372036854775808])).
+  { eapply is_spans_unique; [exact H|]. apply spans_field_correct_pf. exact Z_neqb_spec. }
+  vm_compute in E. discriminate.
+Qed.
+Print Assumptions bitwise_spans_refuted.
+(* 'S<w>' elements: trailing NULs are padding, not content *)
+Theorem pad_fixed_trailing_nul : forall w r, len r + 1 <= w -> pad_fixed w (r ++ [0]) = pad_fixed w r.
+Proof. exact pad_fixed_trailing_nul_pf. Qed.
+Print Assumptions pad_fixed_trailing_nul.
+(* np.unique(c, return_inverse=True)[1] (the ranks DataFrame.groupby stacks when the key dtypes differ): two rows get
+   the same rank iff they hold the same value.  Full: any exact !=, any strict total < *)
+Theorem unique_inverse_exact : forall (A:Type) (neqb ltb:A -> A -> bool) (d:A) (c:list A) i j,
+  neq_test neqb -> strict_total ltb -> 0 <= i < len c -> 0 <= j < len c ->
+  (nthd 0 (unique_inverse neqb ltb c) i = nthd 0 (unique_inverse neqb ltb c) j <-> nthd d c i = nthd d c j).
+Proof. intros A neqb ltb d c i j Hn Hl. exact (unique_inverse_adjacent neqb ltb Hn Hl d c i j). Qed.
+Print Assumptions unique_inverse_exact.
+(* DataFrame.groupby(by=[...]): the spans computed from the stacked key columns (as they are, or rank-replaced when the
+   dtypes differ) are THE spans of the table of key rows.  Full: every table with at least one column, incl. no rows *)
+Theorem groupby_spans_correct : forall (mixed:bool) (cols:list (list (list Z))) (n:Z),
+  cols <> [] -> Forall (fun f => len f = n) cols ->
+  exists sp, groupby_spans mixed cols = Ok sp /\ is_spans [] (rows_of [] cols n) sp.
+Proof. exact groupby_spans_correct_pf. Qed.
+Print Assumptions groupby_spans_correct.
+Example groupby_spans_example :   (* keys (0.0 | -0.0 as key 0, 'a') x3 then (0.5 -> key, 'a'): dtypes differ *)
+  groupby_spans true [[[0]; [0]; [0]; [4602678819172646912]]; [[97]; [97]; [97]; [97]]] = Ok [0; 3; 4].
+Proof. vm_compute. reflexivity. Qed.
